@@ -281,6 +281,9 @@ func init() {
 
 	// ---------------------------------------------------------------- sync/atomic
 	atomicLoad := func(m *Machine, th *Thread, fn *ssa.Function, a []Value) (Value, bool) {
+		// a load is a scheduling point too: check-then-act on an atomic (Load ... Store) is a race
+		// that only shows when another thread runs between the two
+		m.wantYield = "atomic"
 		return m.load(argPtr(m, a[0])), true
 	}
 	atomicStore := func(m *Machine, th *Thread, fn *ssa.Function, a []Value) (Value, bool) {
